@@ -1,5 +1,6 @@
 import Driver.Index
 import OrdModel.Index.Store
+import OrdModel.Store.Protocol
 /-
 Driver for the concrete (cache + commit) layer.  Same block lines as the index driver, but
 `endblock` indexes into the cache without flushing and `commit` flushes, mirroring where the
@@ -15,7 +16,19 @@ structure SS where
   pending : Option Block := none
   txs : List Tx := []
   dead : Option String := none
+  /-- commit/savepoint/reorg protocol model (block ids instead of content) -/
+  pset : Ord.Store.Settings := ⟨5000, 10, 2, false⟩
+  pdb : Ord.Store.Db := Ord.Store.Db.empty
   deriving Inhabited
+
+def renderEv : Ord.Store.Ev → String
+  | .commit h => s!"C{h}"
+  | .savepointDeleted h => s!"D{h}"
+  | .savepointCreated h => s!"S{h}"
+  | .restored h => s!"R{h}"
+
+def natList (s : String) : Option (List Nat) :=
+  if s == "-" then some [] else (s.splitOn ",").mapM (·.toNat?)
 
 def step (s : SS) : List String → SS × String
   | "cfg" :: ts =>
@@ -47,6 +60,20 @@ def step (s : SS) : List String → SS × String
     | some _ => (s, "bad-op")
     | none => (s, "bad-op")
   | ["dump", name] => (s, renderSection s.cfg s.store.st name)
+  | ["proto.reset", ci, si, ms, integ] =>
+    match ci.toNat?, si.toNat?, ms.toNat? with
+    | some ci, some si, some ms => ({ s with pset := ⟨ci, si, ms, integ == "1"⟩, pdb := Ord.Store.Db.empty }, "ok")
+    | _, _, _ => (s, "bad-op")
+  -- a fresh process reopened the database: nothing in the protocol state changes
+  | ["proto.update", headers, rounds, node] =>
+    match headers.toNat?, rounds.toNat?, natList node with
+    | some hd, some rounds, some node =>
+      let (db, evs, out) := Ord.Store.update s.pset hd node rounds s.pdb []
+      let o := match out with | .ok => "ok" | .unrecoverable => "unrecoverable" | .outOfFuel => "hang"
+      let evs' := if out == .outOfFuel then [] else evs
+      ({ s with pdb := db },
+        s!"{o} chain={joinOr (db.cur.chain.map toString) ","} lastsp={db.cur.lastSavepointHeight} ev={joinOr (evs'.map renderEv) ","}")
+    | _, _, _ => (s, "bad-op")
   | "store.oracle.same" :: a :: b :: _ => (s, toString (a == b))
   | "store.oracle.true" :: v :: _ => (s, toString (v == "1"))
   | _ => (s, "bad-op")
